@@ -107,8 +107,10 @@ def norm_value(v, depth=0):
     if isinstance(v, (list, tuple)):
         return [type(v).__name__] + [norm_value(x, depth + 1) for x in v]
     if isinstance(v, dict) or type(v).__name__ == 'mappingproxy':
-        return {str(k): norm_value(x, depth + 1) for k, x in v.items()}
-    if isinstance(v, (str, int, float, bool)) or v is None:
+        return {ADDR.sub('0x', str(k)): norm_value(x, depth + 1) for k, x in v.items()}
+    if isinstance(v, str):
+        return 'str:%r' % ADDR.sub('0x', v)          # (the text of a callable that was concatenated into a string carries an address)
+    if isinstance(v, (int, float, bool)) or v is None:
         return '%s:%r' % (type(v).__name__, v)
     return 'obj:' + type(v).__name__
 
@@ -438,8 +440,10 @@ def run_text(case, ctx):
     F = copy.deepcopy(ctx.pristine)
     for entry in ('parse', 'eval', 'list_names'):
         ctx.cur = {'first': None, 'foreign': 0}
+        random.seed(7)              # a generated text may call rand / shuffle: both sides draw the same numbers
         out = do_call(ctx.textP, entry, text, fresh_names(0) if entry == 'eval' else None, 200 if entry == 'eval' else None, 0)
         ctx.cur = {'first': None, 'foreign': 0}
+        random.seed(7)
         ref = do_call(F, entry, text, fresh_names(0) if entry == 'eval' else None, 200 if entry == 'eval' else None, 0)
         ctx.count('given_text_calls_compared_with_a_history_free_parser')
         if ('recursion',) in (out, ref):
@@ -456,6 +460,7 @@ def run_cgf(case, ctx):
     from lib import cgdriver
     _, seed, seconds = case
     seeds = [t for k in ('ok', 'lexical', 'syntax-mid', 'premature-end', 'unbalanced-open', 'unbalanced-close', 'runtime', 'names-text') for t in KINDS[k][:6]]
+    seeds += ['rand() + 1', 'shuffle([1, 2, 3, 4])', 'x = rand(1, 100)\nx']
     out = cgdriver.run(ctx, 'check:C11:text', seed, seconds, seeds)
     if out is None:
         return
